@@ -309,6 +309,41 @@ func eioServer(h *H) {
 			break
 		}
 	}
+	// (a') deterministic: a handshake is served while Close is closing the existing sessions (from the OnClose callback of one of them)
+	{
+		var srv *eio.Server
+		var created, closes int32
+		var inner *httptest.ResponseRecorder
+		first := true
+		srv = eio.NewServer(func(s eio.ServerSocket) *eio.Callbacks {
+			atomic.AddInt32(&created, 1)
+			isFirst := first
+			first = false
+			return &eio.Callbacks{OnClose: func(eio.Reason, error) {
+				atomic.AddInt32(&closes, 1)
+				if isFirst {
+					rec := httptest.NewRecorder()
+					srv.ServeHTTP(rec, httptest.NewRequest("GET", "http://x/engine.io/?EIO=4&transport=polling", nil))
+					inner = rec
+				}
+			}}
+		}, &eio.ServerConfig{})
+		srv.Run()
+		srv.ServeHTTP(httptest.NewRecorder(), httptest.NewRequest("GET", "http://x/engine.io/?EIO=4&transport=polling", nil))
+		srv.Close()
+		time.Sleep(50 * time.Millisecond)
+		cr, cl := atomic.LoadInt32(&created), atomic.LoadInt32(&closes)
+		h.Eval()
+		h.NonTrivial("race:onCloseDuringClose")
+		if cr != cl {
+			st := 0
+			if inner != nil {
+				st = inner.Code
+			}
+			h.Violation("C17", "a handshake racing Server.Close is admitted and never closed", "a handshake served from the OnClose callback of a session that Server.Close is closing",
+				fmt.Sprintf("handshake answered %d; sessions created=%d closed=%d after Close returned (IsClosed=%v)", st, cr, cl, srv.IsClosed()))
+		}
+	}
 	// (b) N concurrent handshakes, Close at a random moment: every session that was created ends closed
 	rounds := 30
 	if h.Thorough() {
